@@ -580,6 +580,10 @@ func (fc *FuncCtx) applyContract(c *ast.CallExpr, st *State, ct *Contract, fn *t
 		// but cannot be used by callers: it is skipped here (nothing is assumed)
 		if t, ok := fc.evalEnsuresForCaller(env, en); ok {
 			st.assume(t)
+			if en.Free {
+				// a free postcondition is assumed by callers and not proved in the callee: an assumption of the proof
+				e.assumed["free (unchecked) postcondition of "+ct.Key+": "+en.Src] = true
+			}
 		}
 	}
 	if ct.Trusted != "" || ct.Extern {
